@@ -109,7 +109,7 @@ Definition parameter_class : eqclass :=
           [(1%positive,0); (2%positive,0); (3%positive,0); (4%positive,0); (5%positive,0)].
 Example eqhash_examples :
   cls_consistent parameter_class = true /\ cls_consistent cs_class = true /\ cls_consistent cs_class_before_fix = false /\
-  hashed_not_compared colinfo_class_before_fix = [(9%positive, 0)] /\ hashed_not_compared model_class = [(10%positive, 1)] /\
+  hashed_not_compared colinfo_class_before_fix = [(9%positive, 0)] /\ hashed_not_compared model_class_before_fix = [(7%positive, 0); (10%positive, 1)] /\ cls_consistent model_class = true /\
   cls_eq parameter_class (fun t => Pos.to_nat (fst t)) (fun t => Pos.to_nat (fst t)) = true /\
   cls_eq parameter_class (fun t => Pos.to_nat (fst t)) (fun _ => 0) = false.
 Proof. repeat split; vm_compute; reflexivity. Qed.
